@@ -19,20 +19,25 @@
                                                 machine never fails and its fills are those of the
                                                 policy g_min_run (the oracle's min_run is this function
                                                 at the oracle's access records)              full
-                                                NOT PROVED: that the model's k-way merge of a case is
-                                                such a schedule and equals the oracle's sorted schedule
-                                                (C17_cache_refines_min at the level of cases);
-                                                refuted under equal next-use stamps:
-                                                C17_cache_tie_refuted
-     oracle on the model                        C17_model_meets_spec: every clause except the cache
-                                                clause, which is a hypothesis (trivial without
-                                                cache runs: C17_model_meets_spec_no_cache)
-   The cache clause stays decided on every run by the oracle [c17_holds] (evaluated on the
-   implementation's output: verdict bit 1, and on the model's: bit 4). *)
+                                                C17_cache_refines_min: outside region 1 the model's
+                                                cache run never fails and its per-tensor read bits are
+                                                the oracle's spec_cache_reads (min_run)        full
+                                                (C17_schedule_is_sort: k-way merge = stable sort;
+                                                 C17_sort_binds: bucket sort = stable sort)
+                                                refuted in region 1: C17_cache_tie_refuted
+                                                NOT PROVED: bounds and monotonicity of min_run
+     oracle on the model                        C17_model_meets_spec: outside region 1 every clause of
+                                                the oracle holds on the model, given the two clauses
+                                                about the policy itself (bounds_ok, non_increasing) —
+                                                C17_model_meets_spec_cache: given the whole cache clause;
+                                                C17_model_meets_spec_no_cache: without cache runs
+   The bounds / monotonicity clauses of the cache stay decided on every run by the oracle
+   [c17_holds] (evaluated on the implementation's output: verdict bit 1, and on the model's: bit 4). *)
 From Coq Require Import ZArith List Bool.
 From FT Require Import Model.Base Model.Obs Model.C17Traffic Model.C17Check
                        Proofs.ObsP Proofs.C17TrafficP Proofs.C17CheckP Proofs.C17SchedP
-                       Proofs.C17BuffetP Proofs.C17LiftP Proofs.C17CacheP.
+                       Proofs.C17BuffetP Proofs.C17LiftP Proofs.C17CacheP Proofs.C17SortP
+                       Proofs.C17ParamP Proofs.C17CaseP.
 Import ListNotations.
 Open Scope Z_scope.
 
@@ -164,16 +169,42 @@ Theorem C17_cache_machine : forall cap line nb sched, wfs sched ->
 Proof. exact cache_machine_spec. Qed.
 Print Assumptions C17_cache_machine.
 
-(* NOT PROVED (kept as the oracle clause [cache_ok], evaluated on every case):
-     C17_cache_refines_min : forall c cap, c17_wf c = true -> c17_region c = 0 -> In cap (k_caps c) ->
-       reads of model_cache c cap = spec_cache_reads c cap
-   Missing between C17_cache_machine and this statement: (i) the k-way merge the_schedule is the
-   stable sort by (padded stamp, binding) of the tagged accesses, and padding with -1 orders
-   non-negative stamps like Python's list comparison, so that wfs (sched_of c pin_cache) holds in
-   region 0; (ii) the bucket sort of the bindings equals the oracle's stable insertion sort;
-   (iii) g_min_run on the model's accesses = min_run on the oracle's access records (same
-   parametric function; pointwise agreement of same-line / write / staging as in fills_corr).
-     C17_monotone : fills never increase with the capacity (oracle clause non_increasing).
+(* the main loop's k-way merge (next_keys, bisect insert, _extractNext) is the stable sort of the
+   tagged accesses by (stamp padded with -1, binding index), whenever every binding's accesses
+   are ordered by that key *)
+Theorem C17_schedule_is_sort : forall nord rem,
+  (forall i, sortedA nord i (nth i rem [])) ->
+  the_schedule nord rem = ssort (keylt nord) (tag_from 0 rem).
+Proof. exact the_schedule_is_sort. Qed.
+Print Assumptions C17_schedule_is_sort.
+
+(* bind_info (buckets by rank depth, flattened) = the stable sort of the bindings by rank depth *)
+Theorem C17_sort_binds : forall bs, sort_binds bs = isort_binds bs.
+Proof. exact sort_binds_isort. Qed.
+Print Assumptions C17_sort_binds.
+
+(* C17_cache_refines_min: for every well-formed case outside region 1 (no binding touches two
+   different lines in one iteration step) and every capacity, cacheTraffic's model does not raise
+   and charges, per tensor, exactly line * (fills of the furthest-next-use-with-bypass policy
+   min_run on the oracle's own merged access sequence).
+   Proof: Proofs/C17CaseP.v — the model's schedule is well formed (sched_wfs: sorted by key,
+   padding with -1 orders non-negative stamps like Python's list comparison, equal keys mean the
+   same line by no_ties, next-use stamps from the backward scan), C17_cache_machine, both
+   schedules are images of one sorted list (sched_model, sched_spec), the policy is parametric
+   (Proofs/C17ParamP.v, policy_transfer), per-tensor sums (combine_reads). *)
+Theorem C17_cache_refines_min : forall c cap, c17_wf c = true -> c17_region c = 0 ->
+  In cap (k_caps c) ->
+  c_err (cache_run (length (cbs c)) cap (k_line c) (sched_of c pin_cache)) = 0
+  /\ reads_of (model_cache c cap) = spec_cache_reads c cap.
+Proof.
+  intros c cap W R H. apply cache_refines_min; [exact W|exact (region0_no_ties c cap R H)].
+Qed.
+Print Assumptions C17_cache_refines_min.
+
+(* NOT PROVED (kept as oracle clauses [bounds_ok], [non_increasing], evaluated on every case):
+     the policy's fills lie between the number of distinct lines first touched by a read and the
+     number of reads;  C17_monotone : they never increase with the capacity;  optimality of
+     min_run among all replacement policies with bypass.
    Refuted outside region 0: when two lines of one binding are used next in the same iteration
    step (a read and a write to different lines) their ListElems compare equal, the line that is
    accessed is not at the head of next_evict and cacheTraffic stops with an AssertionError. *)
@@ -184,14 +215,23 @@ Theorem C17_cache_tie_refuted :
 Proof. exact cache_tie_refuted. Qed.
 Print Assumptions C17_cache_tie_refuted.
 
-(* the faithful model meets the oracle: filter, combine, buffet fills/write-backs and the
-   no-temporary-file clauses are proved for every well-formed case; the cache clause
-   (C17_cache_refines_min, not proved) is the remaining hypothesis *)
-Theorem C17_model_meets_spec : forall c, c17_wf c = true ->
+(* the faithful model meets the oracle outside region 1: filter, combine, buffet fills/write-backs,
+   cache fills = min_run, no failure, no temporary file are proved; what remains as hypotheses are
+   the two clauses that speak about the policy min_run itself (not about the code): its bounds
+   and its monotonicity in the capacity (C17_monotone, not proved) *)
+Theorem C17_model_meets_spec : forall c, c17_wf c = true -> c17_region c = 0 ->
+  (forall cap, In cap (k_caps c) -> bounds_ok c (model_cache c cap) = true) ->
+  non_increasing (map total_reads (map (model_cache c) (k_caps c))) = true ->
+  holds c17_checker c (model c17_checker c) = true.
+Proof. exact model_meets_region0. Qed.
+Print Assumptions C17_model_meets_spec.
+
+(* ... and in any region, given the whole cache clause *)
+Theorem C17_model_meets_spec_cache : forall c, c17_wf c = true ->
   cache_ok c (vnth 3 (model c17_checker c)) = true ->
   holds c17_checker c (model c17_checker c) = true.
 Proof. exact model_meets_modulo_cache. Qed.
-Print Assumptions C17_model_meets_spec.
+Print Assumptions C17_model_meets_spec_cache.
 
 (* without cache runs nothing is assumed *)
 Theorem C17_model_meets_spec_no_cache : forall c, c17_wf c = true -> k_caps c = [] ->
